@@ -143,6 +143,9 @@ var failStmts = []string{
 	"continue",
 	// the rule reaches its return, but the value (read from an unexported field) cannot be handed out
 	"zh = O.hid\n  return zh",
+	// failures inside an else branch and inside an else-if condition
+	"if ff {\n    zz = 1\n  } else {\n    O.Boom()\n  }",
+	"if ff {\n    zz = 1\n  } else if nofunc() > 1 {\n    zz = 2\n  }",
 }
 
 // slowConcChild reports whether the failing statement of the rule has a gated conc sibling.
